@@ -341,7 +341,8 @@ theorem acmodEndUtt_closed (win : Nat) (skip : Nat → Bool) (s : St) (tail : Bo
     (hfe : tail = true ∨ s.nextId = 0) (hb : s.cmnFrames + (if tail then 1 else 0) ≤ cmnWinHwm)
     (hw : 3 * win + 2 ≤ livebuf) :
     let s' := acmodEndUtt true win skip s tail
-    EndCore win s' s'.nextId ∧ s'.state = .ended ∧ SearchedOK s' ∧ AlignedOK s' := by
+    EndCore win s' s'.nextId ∧ s'.state = .ended ∧ SearchedOK s' ∧ AlignedOK s' ∧
+      s'.nextId = s.nextId + (if tail then 1 else 0) := by
   intro s'
   rcases h.inv with hs | ⟨c, hp⟩
   · -- no frame consumed so far
@@ -356,10 +357,12 @@ theorem acmodEndUtt_closed (win : Nat) (skip : Nat → Bool) (s : St) (tail : Bo
       have hcnt := hc.cnt
       have hroom := hc.room
       rw [hs']
-      refine ⟨⟨hc.nofault, hc.grow, hc.fbLen, hc.outIdx, by simp only []; omega, by simp only []; omega, ?_⟩, rfl, ?_, ?_⟩
+      refine ⟨⟨hc.nofault, hc.grow, hc.fbLen, hc.outIdx, by simp only []; omega, by simp only []; omega, ?_⟩, rfl, ?_, ?_, ?_⟩
       · intro k hk; simp only [] at hk; omega
       · have := h.srch; unfold SearchedOK at *; exact this
       · exact h.algn
+      · have := hs.mfc.next; have := h.mfc0
+        simp only [Bool.false_eq_true, if_false]; omega
     | true =>
       simp only [if_true] at e hm hb
       -- the frame is first consumed as the start of the utterance …
@@ -389,9 +392,11 @@ theorem acmodEndUtt_closed (win : Nat) (skip : Nat → Bool) (s : St) (tail : Bo
       have halA : AlignedOK A.st := AlignedOK.keep p3 hs.core.outIdx h.algn
       have hsrB : SearchedOK B := by rw [hB]; exact hsrA
       have halB : AlignedOK B := by rw [hB]; exact halA
-      refine ⟨by rw [q5]; exact q1, q4, ?_, ?_⟩
+      refine ⟨by rw [q5]; exact q1, q4, ?_, ?_, ?_⟩
       · exact SearchedOK.keep q3 hBc.outIdx hsrB
       · exact AlignedOK.keep q3 hBc.outIdx halB
+      · have := hs.mfc.next; have := h.mfc0
+        rw [q5]; simp only [if_true]; omega
   · -- at least one frame consumed: the front end has a pending frame
     have hc1 := hp.c1
     have hnext := hp.mfc.next
@@ -413,19 +418,34 @@ theorem acmodEndUtt_closed (win : Nat) (skip : Nat → Bool) (s : St) (tail : Bo
       simp only [s', acmodEndUtt, e, hws, Bool.and_false, if_false, Bool.false_eq_true]
       rw [if_pos (by decide)]
     rw [hs']
-    refine ⟨by rw [q5]; exact q1, q4, ?_, ?_⟩
+    refine ⟨by rw [q5]; exact q1, q4, ?_, ?_, ?_⟩
     · exact SearchedOK.keep q3 hp.core.outIdx h.srch
     · exact AlignedOK.keep q3 hp.core.outIdx h.algn
+    · have := h.mfc0
+      rw [q5]; simp only [if_true]; omega
 
 theorem decEnd_closed (win : Nat) (skip : Nat → Bool) (s : St) (tail : Bool) (h : Open win s)
     (hfe : tail = true ∨ s.nextId = 0) (hb : s.cmnFrames + (if tail then 1 else 0) ≤ cmnWinHwm)
     (hw : 3 * win + 2 ≤ livebuf) : Closed win (decEnd true win skip s tail) := by
   have hst : ¬ (s.state = .ended ∨ s.state = .idle) := by
     rcases h.state with e | e <;> rw [e] <;> decide
-  obtain ⟨a1, a2, a3, a4⟩ := acmodEndUtt_closed win skip s tail h hfe hb hw
+  obtain ⟨a1, a2, a3, a4, _⟩ := acmodEndUtt_closed win skip s tail h hfe hb hw
   unfold decEnd
   rw [if_neg hst]
   exact closed_of_end a1 a2 a3 a4
+
+/-- `decoder_end_utt` numbers exactly the frame `fe_end` returns -/
+theorem decEnd_nextId (win : Nat) (skip : Nat → Bool) (s : St) (tail : Bool) (h : Open win s)
+    (hfe : tail = true ∨ s.nextId = 0) (hb : s.cmnFrames + (if tail then 1 else 0) ≤ cmnWinHwm)
+    (hw : 3 * win + 2 ≤ livebuf) : (decEnd true win skip s tail).nextId = s.nextId + (if tail then 1 else 0) := by
+  have hst : ¬ (s.state = .ended ∨ s.state = .idle) := by
+    rcases h.state with e | e <;> rw [e] <;> decide
+  obtain ⟨a1, a2, a3, a4, a5⟩ := acmodEndUtt_closed win skip s tail h hfe hb hw
+  have hq : QInv (acmodEndUtt true win skip s tail) :=
+    ⟨a1.nofault, a1.fbLen, a1.outIdx, by have := a1.cnt; have := a1.room; omega⟩
+  unfold decEnd
+  rw [if_neg hst, searchForward_spec _ hq a3]
+  exact a5
 
 theorem Closed.qinv {win} {s : St} (h : Closed win s) : QInv s :=
   ⟨h.core.nofault, h.core.fbLen, h.core.outIdx, by have := h.core.cnt; have := h.core.room; omega⟩
@@ -610,7 +630,7 @@ theorem decEnd_outFrame_mono (win : Nat) (skip : Nat → Bool) (s : St) (tail : 
   have hnext : s.nextId ≤ (decEnd true win skip s tail).nextId := by
     have hst : ¬ (s.state = .ended ∨ s.state = .idle) := by
       rcases h.state with e | e <;> rw [e] <;> decide
-    obtain ⟨a1, a2, a3, a4⟩ := acmodEndUtt_closed win skip s tail h hfe hb hw
+    obtain ⟨a1, a2, a3, a4, _⟩ := acmodEndUtt_closed win skip s tail h hfe hb hw
     have hq : QInv (acmodEndUtt true win skip s tail) :=
       ⟨a1.nofault, a1.fbLen, a1.outIdx, by have := a1.cnt; have := a1.room; omega⟩
     have e := searchForward_spec _ hq a3
